@@ -1,5 +1,6 @@
 import BU.Properties.C20_Gen
 import BU.Proofs.CurveLawsFinal
+import BU.Properties.C20
 /-!
 # C20, continuation — the group law holds of the *generated* curve arithmetic
 
@@ -38,5 +39,12 @@ theorem gen_order :
     cases hm : mul G k with
     | none => exact hn hm
     | some q => rw [hm] at h; cases h
+
+/-- **RIPEMD-160 end to end**: the Python source of `ripemd160`, as translated on this run, computes the RIPEMD-160 of the
+specification (Dobbertin, Bosselaers, Preneel) on every message shorter than 2^61 bytes -/
+theorem gen_ripemd160_eq_spec (data : Bytes) (hlen : data.length < 2 ^ 61) :
+    Gen.rmd_ripemd160 data = .ok (Spec.Rmd.ripemd160 data) := by
+  rw [C20Gen.gen_ripemd160 data hlen]
+  exact congrArg Except.ok (C20.ripemd_eq_spec data)
 
 end C20GenCurve
